@@ -10,6 +10,8 @@ use crate::report::Viol;
 use rayon::prelude::*;
 use std::collections::{BTreeMap, HashSet};
 
+const CHUNK: usize = 20_000;
+
 pub struct Step {
     /// canonical key of the state reached; None = do not expand (the run hit a violation that ends the history)
     pub key: Option<String>,
@@ -62,31 +64,35 @@ pub fn enumerate<O: Clone + Send + Sync + std::fmt::Debug>(
     // frontier = all live histories of the previous length
     let mut frontier: Vec<Vec<u8>> = vec![vec![]];
     for d in 1..=depth {
-        let results: Vec<(Vec<u8>, Step)> = frontier
-            .par_iter()
-            .flat_map_iter(|h| {
-                (0..alphabet.len()).map(move |a| {
-                    let mut h2 = h.clone();
-                    h2.push(a as u8);
-                    h2
-                })
-            })
-            .map(|h2| {
-                let ops: Vec<O> = h2.iter().map(|&i| alphabet[i as usize].clone()).collect();
-                let s = run(&ops);
-                (h2, s)
-            })
-            .collect();
         let mut next = vec![];
-        for (h, s) in results {
-            st.transitions += 1;
-            st.histories_replayed += 1;
-            if st.sample_histories.len() < 3 || (d == depth && st.sample_histories.len() < 6) {
-                st.sample_histories.push(format!("{:?}", h.iter().map(|&i| &alphabet[i as usize]).collect::<Vec<_>>()));
-            }
-            if let Some(k) = st.absorb(s) {
-                keys.insert(k);
-                next.push(h);
+        for chunk in frontier.chunks(CHUNK) {
+            let results: Vec<(Vec<u8>, Step)> = chunk
+                .par_iter()
+                .flat_map_iter(|h| {
+                    (0..alphabet.len()).map(move |a| {
+                        let mut h2 = h.clone();
+                        h2.push(a as u8);
+                        h2
+                    })
+                })
+                .map(|h2| {
+                    let ops: Vec<O> = h2.iter().map(|&i| alphabet[i as usize].clone()).collect();
+                    let s = run(&ops);
+                    (h2, s)
+                })
+                .collect();
+            for (h, s) in results {
+                st.transitions += 1;
+                st.histories_replayed += 1;
+                if st.sample_histories.len() < 3 || (d == depth && st.sample_histories.len() < 6) {
+                    st.sample_histories.push(format!("{:?}", h.iter().map(|&i| &alphabet[i as usize]).collect::<Vec<_>>()));
+                }
+                if let Some(k) = st.absorb(s) {
+                    keys.insert(k);
+                    if d < depth {
+                        next.push(h);
+                    }
+                }
             }
         }
         st.max_depth = d;
@@ -118,38 +124,40 @@ pub fn closure<O: Clone + Send + Sync + std::fmt::Debug>(
         frontier.push(vec![]);
     }
     for d in 1..=max_depth {
-        let results: Vec<(Vec<u8>, Step)> = frontier
-            .par_iter()
-            .flat_map_iter(|h| {
-                (0..alphabet.len()).map(move |a| {
-                    let mut h2 = h.clone();
-                    h2.push(a as u8);
-                    h2
-                })
-            })
-            .map(|h2| {
-                let ops: Vec<O> = h2.iter().map(|&i| alphabet[i as usize].clone()).collect();
-                let s = run(&ops);
-                (h2, s)
-            })
-            .collect();
         let mut next = vec![];
-        for (h, s) in results {
-            st.transitions += 1;
-            st.histories_replayed += 1;
-            if let Some(k) = st.absorb(s) {
-                if !seen.contains(&k) {
-                    if seen.len() >= state_cap {
-                        if st.caps_hit.is_empty() {
-                            st.caps_hit.push(format!("state cap {} reached at depth {}", state_cap, d));
+        for chunk in frontier.chunks(CHUNK) {
+            let results: Vec<(Vec<u8>, Step)> = chunk
+                .par_iter()
+                .flat_map_iter(|h| {
+                    (0..alphabet.len()).map(move |a| {
+                        let mut h2 = h.clone();
+                        h2.push(a as u8);
+                        h2
+                    })
+                })
+                .map(|h2| {
+                    let ops: Vec<O> = h2.iter().map(|&i| alphabet[i as usize].clone()).collect();
+                    let s = run(&ops);
+                    (h2, s)
+                })
+                .collect();
+            for (h, s) in results {
+                st.transitions += 1;
+                st.histories_replayed += 1;
+                if let Some(k) = st.absorb(s) {
+                    if !seen.contains(&k) {
+                        if seen.len() >= state_cap {
+                            if st.caps_hit.is_empty() {
+                                st.caps_hit.push(format!("state cap {} reached at depth {}", state_cap, d));
+                            }
+                            continue;
                         }
-                        continue;
+                        seen.insert(k);
+                        if st.sample_histories.len() < 3 || d == max_depth && st.sample_histories.len() < 6 {
+                            st.sample_histories.push(format!("{:?}", h.iter().map(|&i| &alphabet[i as usize]).collect::<Vec<_>>()));
+                        }
+                        next.push(h);
                     }
-                    seen.insert(k);
-                    if st.sample_histories.len() < 3 || d == max_depth && st.sample_histories.len() < 6 {
-                        st.sample_histories.push(format!("{:?}", h.iter().map(|&i| &alphabet[i as usize]).collect::<Vec<_>>()));
-                    }
-                    next.push(h);
                 }
             }
         }
